@@ -216,7 +216,12 @@ def run(ctx):
             key = "locator|" + f.path.split("grep_searcher::", 1)[1]
             # the comparison itself, wherever its answer goes (a switch, a named flag, the tail of an `&&`)
             tests = [(bb, j) for bb, j, s_ in f.stmts() if s_["k"] == "assign" and ends_with_term(eb.rvalue(s_["rv"]))]
-            sw = tests
+            # the same question asked of the slice: `bytes[..range.end()].last() == Some(&line_term)` / ends_with(&[line_term])
+            ctests = [c for c in f.calls() if (c.is_("core::cmp::PartialEq::eq") and
+                                              any(is_call(x, "[T]::last", "core::slice::<impl [T]>::last") and mentions_call(x, "grep_matcher::Match::end")
+                                                  for a_ in c.args for x in walk(eb.operand(a_)))) or
+                      (c.path.endswith("::ends_with") and any(mentions_call(eb.operand(a_), "grep_matcher::Match::end") for a_ in c.args))]
+            sw = tests or ctests
 
             def decided(c):
                 # once the comparison said "ends with the terminator" the scan is not reached, and the scan sits below
@@ -225,8 +230,13 @@ def run(ctx):
                     sx = Sccp(f, stmt_values={(bb, j): I(1)}).run([(bb, {})])
                     if c.bb in sx.exec_blocks:
                         return False
-                heads = {bb for bb, j in tests}
-                for bb, j in tests:
+                from ..flow import with_default
+                for ct in ctests:
+                    sx = Sccp(f, call_model=with_default(lambda c_, argv, ct=ct: I(1) if (c_.bb, c_.loc) == (ct.bb, ct.loc) else None)).run([(ct.bb, {})])
+                    if c.bb in sx.exec_blocks:
+                        return False
+                heads = {bb for bb, j in tests} | {ct.bb for ct in ctests}
+                for bb, j in list(tests) + [(ct.bb, 0) for ct in ctests]:
                     for i, b in enumerate(f.blocks):
                         if C.bool_switch(f, i) and C.dominates(f, i, bb):
                             heads.add(i)
